@@ -66,11 +66,22 @@ impl Property for C11 {
         let mut s = Scenario::new("C11", &format!("{}{}", if host_family { "host" } else { "browse" }, if stall { "-stall" } else { "" }), rs);
         strict(&mut s);
         s.net.self_loop = rng.below(3) == 0;
-        s.duts.push(dut_v4(1, 10, 0));
+        // dual-stack worlds: the host has an A and an AAAA record, so that a flush of one type must leave the other alone
+        let dual = index % 3 == 1;
+        s.duts.push(if dual { dut_dual(1, 10, 0) } else { dut_v4(1, 10, 0) });
         s.op(0, Op::SetIpCheck { d: 0, secs: HUGE_IP_CHECK_SECS });
         let ttl = pick_ttl(&mut rng, index, tier);
         let life = ttl as u64 * 1000;
-        let mut peer = peer_v4(1, 50, 0);
+        // the TTL of a later copy of the record under test: same, or a different one (the schedule restarts from the new TTL)
+        let ttl2 = match rng.below(4) {
+            0 => ttl,
+            1 => (ttl / 2).max(1),
+            2 => ttl.saturating_mul(2).min(600).max(ttl.min(600)),
+            _ => 2 + rng.below(120) as u32,
+        };
+        let life2 = ttl2 as u64 * 1000;
+        let with_ttl = |r: &Rec, t: u32| { let mut c = r.clone(); c.ttl = t; c };
+        let mut peer = if dual { peer_dual(1, 50, 0) } else { peer_v4(1, 50, 0) };
         let t0 = 50 + rng.below(400);
         let ta = t0 + 20 + rng.below(1500);
         let variant = rng.below(5);
@@ -79,19 +90,23 @@ impl Property for C11 {
         if host_family {
             s.op(t0, Op::ResolveHost { d: 0, host: "refhost.local.".into(), timeout: None, slot: 10 });
             let a = Rec::a(&hostn, [192, 168, 1, 50], ttl, true);
-            s.op(ta, Op::PeerSend { p: 0, v4: true, sport: 5353, msg: announce(&[a.clone()]), to: Dest::Mcast });
+            let mut first = vec![a.clone()];
+            if dual {
+                first.push(Rec::aaaa(&hostn, ip6("fe80::1:32"), ttl.max(30), true));
+            }
+            s.op(ta, Op::PeerSend { p: 0, v4: true, sport: 5353, msg: announce(&first), to: Dest::Mcast });
             match variant {
                 1 => {
                     // answers queries after skipping the scheduled ones: only refresh queries get an answer
-                    peer.responder = Some(ResponderCfg { records: vec![a.clone()], delay_ms: 10, honor_known_answers: false, additionals: false, active: false, max_answers: Some(1 + rng.below(2) as u32), skip_first: 0, conflict_probes: 0 });
+                    peer.responder = Some(ResponderCfg { records: vec![with_ttl(&a, ttl2)], delay_ms: 10, honor_known_answers: false, additionals: false, active: false, max_answers: Some(1 + rng.below(2) as u32), skip_first: 0, conflict_probes: 0 });
                     // switch the responder on just before mark(80)
                     s.op(ta + life * 80 / 100 - 1.min(life / 2), Op::PeerActive { p: 0, on: true });
-                    horizon = ta + 2 * life.min(300_000) + 3000;
+                    horizon = ta + life.min(300_000) + life2.min(300_000) + 3000;
                 }
                 2 => {
                     let at = ta + 1 + rng.below(life.min(300_000));
-                    s.op(at, Op::PeerSend { p: 0, v4: true, sport: 5353, msg: announce(&[a.clone()]), to: Dest::Mcast });
-                    horizon = at + life.min(300_000) + 3000;
+                    s.op(at, Op::PeerSend { p: 0, v4: true, sport: 5353, msg: announce(&[with_ttl(&a, ttl2)]), to: Dest::Mcast });
+                    horizon = at + life2.min(300_000) + 3000;
                 }
                 3 | 4 => {
                     let age = if rng.bool() { [999u64, 1000, 1001][rng.below(3) as usize] } else { rng.below(31) * 100 };
@@ -113,9 +128,12 @@ impl Property for C11 {
                 2 => (long, long, ttl, long),
                 _ => (long, long, long, ttl),
             };
-            let mut ir = instance_recs(&ty, "ref inst", "RefHost.local.", 8000, &["192.168.1.50"], &[], vec![0], tp, tsrv);
+            let mut ir = instance_recs(&ty, "ref inst", "RefHost.local.", 8000, &["192.168.1.50"], if dual { &["fe80::1:32"] } else { &[] }, vec![0], tp, tsrv);
             ir.txt.ttl = ttxt;
             ir.addrs[0].ttl = taddr;
+            if dual {
+                ir.addrs[1].ttl = long;
+            }
             let rec_under_test = match which {
                 0 => ir.ptr.clone(),
                 1 => ir.srv.clone(),
@@ -125,15 +143,15 @@ impl Property for C11 {
             s.op(ta, Op::PeerSend { p: 0, v4: true, sport: 5353, msg: announce(&ir.all()), to: Dest::Mcast });
             match variant {
                 1 => {
-                    peer.responder = Some(ResponderCfg { records: vec![rec_under_test.clone()], delay_ms: 10, honor_known_answers: false, additionals: false, active: false, max_answers: Some(1 + rng.below(2) as u32), skip_first: 0, conflict_probes: 0 });
+                    peer.responder = Some(ResponderCfg { records: vec![with_ttl(&rec_under_test, ttl2)], delay_ms: 10, honor_known_answers: false, additionals: false, active: false, max_answers: Some(1 + rng.below(2) as u32), skip_first: 0, conflict_probes: 0 });
                     let k = [80u64, 85, 90, 95][rng.below(4) as usize];
                     s.op(ta + (life * k / 100).saturating_sub(1).max(1), Op::PeerActive { p: 0, on: true });
-                    horizon = ta + 2 * life.min(300_000) + 3000;
+                    horizon = ta + life.min(300_000) + life2.min(300_000) + 3000;
                 }
                 2 => {
                     let at = ta + 1 + rng.below(life.min(300_000));
-                    s.op(at, Op::PeerSend { p: 0, v4: true, sport: 5353, msg: announce(&[rec_under_test.clone()]), to: Dest::Mcast });
-                    horizon = at + life.min(300_000) + 3000;
+                    s.op(at, Op::PeerSend { p: 0, v4: true, sport: 5353, msg: announce(&[with_ttl(&rec_under_test, ttl2)]), to: Dest::Mcast });
+                    horizon = at + life2.min(300_000) + 3000;
                 }
                 3 | 4 => {
                     // cache-flush sibling for SRV or address
@@ -190,6 +208,29 @@ impl Property for C11 {
         for v in super::c17::C17.judge(scn, tr).violations {
             if v.rule == "C17-R1" || v.rule == "C17-R3" {
                 j.fail(if v.detail.contains("flush") { "C11-R6" } else { "C11-R1" }, format!("[{}] {}", v.rule, v.detail));
+            }
+        }
+        // "...while records of the same burst and the new record itself are kept": an address record that is certainly
+        // live (not expired, not flushed by a record of its own name/type/class/interface) is listed in every
+        // ServiceResolved of an instance on that host (strict worlds only)
+        if !stalled {
+            for e in tr.events.iter().filter(|e| e.d == d) {
+                let EvKind::Resolved(r) = &e.ev else { continue };
+                let host = Name::from_dotted(&r.host);
+                for &ai in m.find(&host, wire::T_A).iter().chain(m.find(&host, wire::T_AAAA).iter()) {
+                    let Some(ip) = rec_ip(&m.recs[ai].rec) else { continue };
+                    let first = m.recs[ai].arrivals.iter().map(|a| a.step).min().unwrap_or(usize::MAX);
+                    if first >= e.step || !m.recs[ai].arrivals.iter().all(|a| a.certain) {
+                        continue;
+                    }
+                    if m.live_at_s(ai, e.t, e.step, Some(2), Mode::Definitely, 2) && m.live_at(ai, e.t, Some(2), Mode::Definitely, 2) {
+                        j.judgements += 1;
+                        if !r.addrs.iter().any(|a| a.ip == ip) {
+                            let fin = !m.live_at(ai, e.t, Some(2), Mode::Definitely, 1001);
+                            j.fail("C11-R6", format!("ServiceResolved({}) at t={} lacks {}{} although its record (arrivals {:?}) is within its TTL and no cache-flush record of the same name, type and class displaced it: the record was not kept", r.fullname, e.t, ip, if fin { ", which is in the final second of its life," } else { "" }, m.recs[ai].arrivals.iter().map(|a| (a.t, a.ttl)).collect::<Vec<_>>()));
+                        }
+                    }
+                }
             }
         }
         if let Some(age) = scn.params.get("flush_age").and_then(|v| v.as_u64()) {
